@@ -132,7 +132,8 @@ def plan(tier, seed):
         sh.append(['small', logic])
         for i in range(4):
             sh.append(['size2', logic, i, 4])
-        sh.append(['atoms', logic])
+        for ai in range(0, len(ATOMS), 3):
+            sh.append(['atoms', logic, ai])
         blocks = [seed % NB3] if tier == 'quick' else [(seed + j) % NB3 for j in range(8)]
         for b in blocks:
             sh.append(['size3', logic, b])
@@ -207,7 +208,7 @@ def run_shard(shard, tier, seed, acc):
         return
     if kind == 'atoms':
         base = formulas(logic, 1)
-        for a in ATOMS:
+        for a in ATOMS[shard[2]:shard[2] + 3]:
             for b in ATOMS:
                 if deadline_passed():
                     acc.capped()
